@@ -196,6 +196,88 @@ theorem built_of_build (F : Flat Q U V) (A : DFTA Sym Q) (fuel : Nat) (G : UCFG 
                 · exact h1
                 · cases h1 }
 
+/-! ### every key comes from the start symbols through `child` -/
+
+theorem buildLoop_keys (F : Flat Q U V) (A : DFTA Sym Q) (P : UNT V → Prop)
+    (hstep : ∀ k, P k → ∀ r ∈ A.rules, matchesTgt F k r = true → ∀ x ∈ newArgs F k r.1.1 r.1.2, P x) :
+    ∀ (fuel : Nat) (stack : List (UNT V)) (nr res : AList (UNT V) (Row V)),
+      (∀ k ∈ stack, P k) → (∀ k ∈ AList.keys nr, P k) → buildLoop F A fuel stack nr = some res →
+      ∀ k ∈ AList.keys res, P k := by
+  intro fuel
+  induction fuel with
+  | zero => intro stack nr res _ _ h; simp [buildLoop] at h
+  | succ fuel ih =>
+    intro stack nr res hs hk h
+    cases stack with
+    | nil =>
+      simp only [buildLoop, Option.some.injEq] at h
+      exact h ▸ hk
+    | cons tgt stack =>
+      rw [buildLoop] at h
+      by_cases hc : AList.contains tgt nr = true
+      · rw [if_pos hc] at h
+        exact ih stack nr res (fun k hkk => hs k (List.mem_cons_of_mem _ hkk)) hk h
+      · rw [if_neg hc] at h
+        have hc' : AList.contains tgt nr = false := by simpa using hc
+        have hl := lookup_none_of_contains_false tgt nr hc'
+        have hPt : P tgt := hs tgt (by simp)
+        refine ih _ _ res ?_ ?_ h
+        · intro k hkk
+          rcases List.mem_append.mp hkk with h1 | h1
+          · have h2 := List.mem_reverse.mp h1
+            unfold pushesFor at h2
+            obtain ⟨r, hr, hx⟩ := List.mem_flatMap.mp h2
+            by_cases hm : matchesTgt F tgt r = true
+            · rw [if_pos hm] at hx
+              exact hstep tgt hPt r hr hm k (List.mem_filter.mp hx).1
+            · rw [if_neg hm] at hx; cases hx
+          · exact hs k (List.mem_cons_of_mem _ h1)
+        · intro k hkk
+          rw [insert_of_lookup_none tgt _ nr hl, keys_append] at hkk
+          rcases List.mem_append.mp hkk with h1 | h1
+          · exact hk k h1
+          · have : AList.keys [(tgt, rowFor F A tgt)] = [tgt] := rfl
+            rw [this] at h1
+            simp only [List.mem_singleton] at h1
+            rw [h1]; exact hPt
+
+/-- every key of the built table stands for a state the automaton mentions -/
+theorem build_keys_image (F : Flat Q U V) (A : DFTA Sym Q)
+    (hpc : ∀ tgt P i x, F.proj (F.child tgt P i x) = x) (hpr : ∀ x, F.proj (F.root x) = x)
+    (fuel : Nat) (G : UCFG V) (h : build F A fuel = some G) :
+    ∀ k ∈ AList.keys G.rules, ∃ q ∈ A.allStates, F.proj k = F.d q := by
+  unfold build at h
+  cases hs : startsOf F A with
+  | nil => rw [hs] at h; simp at h
+  | cons s ss =>
+    rw [hs] at h
+    simp only at h
+    cases hb : buildLoop F A fuel (s :: ss).reverse [] with
+    | none => rw [hb] at h; simp at h
+    | some nr =>
+      rw [hb] at h
+      simp only [Option.some.injEq] at h
+      subst h
+      refine buildLoop_keys F A (fun k => ∃ q ∈ A.allStates, F.proj k = F.d q) ?_ fuel _ [] nr ?_ ?_ hb
+      · intro k _ r hr _ x hx
+        unfold newArgs at hx
+        obtain ⟨ai, hai, rfl⟩ := List.mem_map.mp hx
+        have h2 := List.mem_zipIdx hai
+        refine ⟨ai.1, ?_, hpc _ _ _ _⟩
+        have hst := DFTA.mem_allStates_of_rule A (l := r.1.1) (args := r.1.2) (d := r.2) hr
+        apply hst.2
+        rw [h2.2.2]
+        exact List.getElem_mem _
+      · intro k hk
+        have hk' : k ∈ startsOf F A := by rw [hs]; exact List.mem_reverse.mp hk
+        unfold startsOf at hk'
+        rw [mem_foldl_addNew] at hk'
+        rcases hk' with h1 | h1
+        · cases h1
+        · obtain ⟨q, hq, rfl⟩ := List.mem_map.mp h1
+          exact ⟨q, List.mem_append_right _ hq, hpr _⟩
+      · intro k hk; simp [AList.keys] at hk
+
 /-! ### termination of `from_DFTA` (`proj = id`) -/
 
 section Termination
